@@ -593,6 +593,28 @@ class Body:
                 dst = mconv.group(1) if mconv.group(2) == "From" else mconv.group(3)
                 inner = self.oname(c["args"][0], depth - 1, seen)
                 return inner if re.match(r"^-?\d+$", inner) else "%s as %s" % (inner, dst)
+            if nm.endswith("::len") and len(c["args"]) == 1:
+                # the length of a constant byte string is a number (`MARK.len()` for `2`)
+                cur_ = c["args"][0]
+                for _h in range(4):
+                    k_ = op_const(cur_)
+                    if k_ is not None:
+                        bs_ = k_.get("bytes")
+                        if bs_ is None and k_.get("def"):
+                            bs_ = (self.facts.consts.get(k_["def"]) or {}).get("bytes")
+                        if bs_ is None and k_.get("def") and (self.facts.consts.get(k_["def"]) or {}).get("raw") and re.match(r"^\[u8; \d+\]$", (self.facts.consts.get(k_["def"]) or {}).get("ty", "")):
+                            bs_ = self.facts.consts[k_["def"]]["raw"]
+                        if bs_ is not None:
+                            return str(len(bs_) // 2)
+                        break
+                    q_ = op_place(cur_)
+                    d_ = self.single_def(q_["l"]) if q_ is not None and not [e for e in q_["p"] if e != "*"] else None
+                    if d_ and d_[2] == "rv" and d_[3]["k"] in ("use", "cast"):
+                        cur_ = d_[3]["o"]
+                    elif d_ and d_[2] == "rv" and d_[3]["k"] == "ref" and not [e for e in d_[3]["p"]["p"] if e != "*"]:
+                        cur_ = {"c": {"l": d_[3]["p"]["l"], "p": []}}
+                    else:
+                        break
             cb = self.facts.bodies.get(nm) if f.get("loc") else None
             if cb is not None and self.facts._canon is not None:
                 nm = self.facts.canon_of(cb)      # rename-resolved name of a crate-local callee
